@@ -290,7 +290,10 @@ def work(item):
                 with time_limit(20), AdmissionCounter(200_000):
                     pred = forecaster.predict(tree)
             except (Budget, Timeout):
-                res["viol"].append(dict(base, kind="predict_does_not_terminate", sig="predict_does_not_terminate"))
+                # the forecaster re-parses the history and enumerates every derivation; for ambiguous repetitions their number
+                # grows exponentially with the history, so a budget overrun is a limit of this exploration, not a verdict
+                # (termination is C06's business): the state is not judged and not expanded
+                res["budget_skips"] = res.get("budget_skips", 0) + 1
                 continue
             except Exception as e:
                 res["viol"].append(dict(base, kind="predict_raises", error=f"{type(e).__name__}: {e}"[:200], sig=f"predict_raises:{type(e).__name__}"))
@@ -350,7 +353,7 @@ def run(ctx: Ctx) -> None:
     items = rotate([(r, 4 if ctx.quick else 6) for r in fam], ctx.seed)
     ctx.log(f"{len(items)} protocol grammars")
     results = pmap_tagged(work, items, chunk=2)
-    states = transitions = outcomes = spec_errors = 0
+    states = transitions = outcomes = spec_errors = budget_skips = 0
     samples = []
     for r in results:
         if "spec_error" in r:
@@ -359,6 +362,7 @@ def run(ctx: Ctx) -> None:
                 ctx.notes.append(f"spec rejected: {r['fan'][len(PRELUDE):]!r}: {r['spec_error']}")
             continue
         states += r["states"]
+        budget_skips += r.get("budget_skips", 0)
         transitions += r["transitions"]
         outcomes += r["outcomes"]
         for v in r["viol"]:
@@ -366,7 +370,9 @@ def run(ctx: Ctx) -> None:
         if len(samples) < 5 and r["states"] > 3:
             samples.append({"grammar": r["fan"][len(PRELUDE):], "states": r["states"], "transitions": r["transitions"]})
     ctx.coverage.update(
-        states=states, transitions=transitions, traces_validated_against_impl=states, samples=samples, exhaustive=True,
-        grammars=len(items), spec_errors=spec_errors, distinct_outcomes=outcomes, max_history=4 if ctx.quick else 6,
+        states=states, transitions=transitions, traces_validated_against_impl=states - budget_skips, samples=samples, exhaustive=budget_skips == 0,
+        states_not_judged_forecast_budget=budget_skips, grammars=len(items), spec_errors=spec_errors, distinct_outcomes=outcomes, max_history=4 if ctx.quick else 6,
         rule="state = (message history, history tree) reached by mounting forecast options; every state's forecast and completeness flag is compared with the reference message-level language",
     )
+    if budget_skips:
+        ctx.cap(f"{budget_skips} states not judged: the forecast needed more than 200 000 parser admissions or 20 s (exponentially many derivations of the history)")
